@@ -503,6 +503,12 @@ func (b *skBuilder) expand(key string) {
 				b.edge(from, b.id(nst), skAction{Kind: "recv", Ch: chanName(x.X), Pos: b.pos(ins, top.fn)}, 0)
 				return
 			}
+			if g := b.race.globalOf(x.X); g != "" && x.Op == token.MUL {
+				nst := cloneStack(st)
+				nst[len(nst)-1].idx++
+				b.edge(from, b.id(nst), skAction{Kind: "acc", Ch: g + ":r", Pos: top.fn.Name() + " " + b.pos(ins, top.fn)}, 0)
+				return
+			}
 			adv()
 		case *ssa.Defer:
 			if k := isWGCall(&x.Call); k == "wgdone" {
@@ -544,6 +550,12 @@ func (b *skBuilder) expand(key string) {
 				b.edge(from, b.id(nst), skAction{Kind: op, Ch: name, Pos: b.pos(ins, top.fn)}, 0)
 				return
 			}
+			if f, k := b.race.callAccess(&x.Call); f != "" {
+				nst := cloneStack(st)
+				nst[len(nst)-1].idx++
+				b.edge(from, b.id(nst), skAction{Kind: "acc", Ch: f + ":" + k, Pos: top.fn.Name() + " " + b.pos(ins, top.fn)}, 0)
+				return
+			}
 			var callee *ssa.Function
 			if f := x.Call.StaticCallee(); f != nil {
 				callee = f
@@ -566,6 +578,14 @@ func (b *skBuilder) expand(key string) {
 				}
 				st = append(st, skFrame{fn: callee, ret: -1})
 			}
+		case *ssa.Store:
+			if g := b.race.globalOf(x.Addr); g != "" {
+				nst := cloneStack(st)
+				nst[len(nst)-1].idx++
+				b.edge(from, b.id(nst), skAction{Kind: "acc", Ch: g + ":w", Pos: top.fn.Name() + " " + b.pos(ins, top.fn)}, 0)
+				return
+			}
+			adv()
 		case *ssa.FieldAddr:
 			if f, k := b.race.access(x); f != "" {
 				nst := cloneStack(st)
@@ -996,7 +1016,7 @@ func (m *bmcModel) smt(k int, envBlocks, envTasks int) (string, []string) {
 	// property: at some step, Stop has closed quit, a goroutine of the wait group has not finished, and no
 	// transition of the follower, the worker or Stop is enabled (environment actions only fill queues).
 	var dls []string
-	for t := 0; t <= k; t++ {
+	for t := 0; t <= k && chset["quit"]; t++ {
 		trs := gen(t)
 		var none []string
 		for _, x := range trs {
@@ -1008,7 +1028,9 @@ func (m *bmcModel) smt(k int, envBlocks, envTasks int) (string, []string) {
 		dls = append(dls, fmt.Sprintf("(and closed_quit_%d %s %s)", t, alive, strings.Join(none, " ")))
 	}
 	w("(declare-const dl Bool)")
-	w("(assert (= dl (or %s)))", strings.Join(dls, "\n  "))
+	if len(dls) > 0 {
+		w("(assert (= dl (or %s)))", strings.Join(dls, "\n  "))
+	}
 	// wait group never negative
 	var negs []string
 	for t := 0; t <= k; t++ {
